@@ -104,6 +104,7 @@ def run(ctx):
         ctx.sample({"trace_event": t})
     if rejects:
         events = vf.read_ndjson(trace)
+        unreproduced, reproduced = [], 0
         for rj in rejects[:200]:
             e = events[rj["l"] - 1]
             if isinstance(rj["spec"], dict):
@@ -120,19 +121,24 @@ def run(ctx):
                           if mm2[0]["expected"] != mm2[0]["got"] else "the real request's host names are not the ones of the URLs")
                 ctx.report("request %s: %s" % (mm2[0]["request"], detail),
                            {"reexec": ["replay-rule"], "input": inp}, {"cause": "request-derivation"})
+                reproduced += 1
                 continue
             # re-execute exactly this event from its abstract form against the real code
-            s2, mm2 = replay_rows(ctx, [{"kind": "REQS", "reqs": [e["req"]]},
-                                        {"kind": "ROW", "fam": ["trace"], "rule": e["rule"],
-                                         "exp": [1 if rj["spec"] else 0]}], variants=3)
+            # (first as it was written - the order of the values of a list-valued modifier is part of the text - then in
+            # two more renderings of the abstract rule)
+            inp = [{"kind": "REQS", "reqs": [e["req"]]},
+                   {"kind": "ROW", "fam": ["trace"], "rule": e["rule"], "text": e["text"], "exp": [1 if rj["spec"] else 0]}]
+            s2, mm2 = replay_rows(ctx, inp, variants=3)
             if not mm2:
-                raise vf.Inconclusive("trace rejection of event %d did not reproduce: %s" % (rj["l"], e["text"]))
+                unreproduced.append("event %d: %s" % (rj["l"], e["text"]))
+                continue
             m = mm2[0]
             what = "rule %r on %s: spec says %s, code says %s" % (m["rule_text"], m["request"], m["expected"], m["got"])
-            ctx.report(what, {"reexec": ["replay-rule"], "input": [{"kind": "REQS", "reqs": [e["req"]]},
-                                                                      {"kind": "ROW", "fam": ["trace"], "rule": e["rule"],
-                                                                       "exp": [1 if rj["spec"] else 0]}]},
-                       {"cause": m["cause"]})
+            ctx.report(what, {"reexec": ["replay-rule"], "input": inp}, {"cause": m["cause"]})
+            reproduced += 1
+        # a rejection that does not come back when its event is re-executed alone is dropped only if others do come back
+        if unreproduced and not reproduced:
+            raise vf.Inconclusive("%d trace rejections, none reproduced when re-executed alone, e.g. %s" % (len(unreproduced), unreproduced[0]))
 
 
 def replay(ctx, path):
